@@ -1,0 +1,13 @@
+//go:build verif
+
+package qos
+
+import "github.com/cilium/ebpf"
+
+// SetMapsForVerif injects the eBPF maps the manager writes to, exactly as Start() would after
+// loading the collection (no program is loaded or attached). Verification harness only.
+func (m *Manager) SetMapsForVerif(egress, ingress, stats *ebpf.Map) {
+	m.qosEgress = egress
+	m.qosIngress = ingress
+	m.qosStatsMap = stats
+}
